@@ -1,5 +1,9 @@
 """C01 - simplification preserves type and meaning.
 
+(A) MC_Simplify: the implementation-shaped rule model spec/Simplifier.tla (one rule per walk_* method)
+satisfies SimplifyContract on every term of the enumerated layers (TLC, exhaustive over the layer);
+the real simplifier is bound to that model rule by rule: Trace_Simp requires out = Simp(in) up to the
+order of commutative arguments, a difference is reported as MODEL-DRIFT.
 (B) TLC-enumerated terms (Gen_Terms layers L1, L2, LQ) are built through the public
 constructors and simplified by the real Simplifier; (C) every (in, out) pair is validated
 by TLC against Contracts!SimplifyContract (TypeOf / FreeSyms / Eval are the oracle)."""
@@ -68,6 +72,34 @@ def simplify_events(ck, terms, env, id0=0, tag=""):
     return evs, skipped
 
 
+def design_and_drift(ck, evs, layers, prop):
+    """(A) the rule model satisfies the contract on whole layers; (C') the real outputs are the model's outputs."""
+    import os
+    import tempfile
+    for layer, _ in layers:
+        fd, cfg = tempfile.mkstemp(suffix=".cfg", prefix="mcsimp_")
+        with os.fdopen(fd, "w") as f:
+            f.write("SPECIFICATION Spec\nCHECK_DEADLOCK FALSE\nCONSTANTS\n  WhichLayer = \"%s\"\n  Part = 0\n  Parts = 1\n"
+                    "  Seed = 0\n  Cap = 32\nINVARIANT RulesPreserveMeaning\nINVARIANT GroundTermsFoldToConstants\n" % layer)
+        try:
+            r = tlc.run("mc/MC_Simplify", cfg=cfg, timeout=7200, heap="6g")
+        finally:
+            os.unlink(cfg)
+        ck.add_tlc(r)
+        if r.invariant_violated or r.error or r.rc != 0:
+            ck.machinery_error("MC_Simplify on layer %s: the rule model itself breaks %s %s\n%s"
+                               % (layer, r.invariant_violated, r.error, r.out[-1500:]))
+        ck.part("design_check_MC_Simplify_" + layer, terms=r.distinct // 2, states=r.distinct,
+                invariants=["RulesPreserveMeaning", "GroundTermsFoldToConstants"])
+    verdicts, st = tlc.validate_events("Trace_Simp", evs, constants={"Seed": 0, "Cap": 8})
+    ck.add_tlc(st)
+    byid = {e["id"]: e for e in evs}
+    for i in sorted(verdicts)[:20]:
+        print("MODEL-DRIFT property=%s the simplifier's output differs from the rule model Simp(in) on %s" % (prop, shape(byid[i]["in"])))
+    ck.cov["drift"] += len(verdicts)
+    ck.part("rule_model_conformance", pairs=len(evs), agree_up_to_AC=len(evs) - len(verdicts), drift=len(verdicts))
+
+
 def run(ck):
     quick = ck.tier == "quick"
     cap = 48 if quick else 256
@@ -88,6 +120,7 @@ def run(ck):
         for cl in fails:
             ck.violation({"kind": "simplify", "clause": cl, "shape": shape(e["in"])},
                          {"event": e, "clause": cl})
+    design_and_drift(ck, evs, [("L1", 1)] if quick else [("L1", 1), ("LQ", 1), ("L2", 1)], "C01")
     for e in evs[:2] + evs[len(l1):len(l1) + 1] + evs[-1:]:
         ck.sample({"in": e["in"], "out": e["out"]})
     ck.cov["exhaustive"] = not quick
